@@ -3,6 +3,7 @@ package props
 import (
 	"bytes"
 	"fmt"
+	"io/ioutil"
 	"math"
 	"os"
 	"path/filepath"
@@ -136,6 +137,9 @@ func (c11) Run(c *fw.Ctx) {
 			writeFixture(dp, l, genContent(r, l, now, 0.5), now)
 		}
 		existed[it] = fileExists(dp)
+		if existed[it] {
+			ioutil.WriteFile(filepath.Join(dir, "pre-"+dotted(it)+".wsp"), readFileOrNil(dp), 0644)
+		}
 	}
 	win := func(args []string) []string {
 		if window != "default" {
@@ -260,8 +264,14 @@ func (c11) Run(c *fw.Ctx) {
 				if want[ai] == nil {
 					continue
 				}
-				if msg := seriesEqual(got[ai], want[ai]); msg != "" {
-					c.Violationf("sumcopy-dest-differs-from-sum", fw.J{"scenario": sc, "run": res.brief(), "item": it, "archive": ai, "cmd_now": nl.Now, "detail": msg},
+				if msg := seriesEqualNumeric(got[ai], want[ai]); msg != "" {
+					dbg := ""
+					if pp := filepath.Join(dir, "pre-"+dotted(it)+".wsp"); fileExists(pp) {
+						if pre, _, err := fetchArchives(pp, sel, from, u, nl.Now); err == nil && pre[ai] != nil {
+							dbg = seriesEqual(pre[ai], want[ai])
+						}
+					}
+					c.Violationf("sumcopy-dest-differs-from-sum", fw.J{"scenario": sc, "run": res.brief(), "item": it, "archive": ai, "cmd_now": nl.Now, "detail": msg, "destination_before_vs_sum": dbg},
 						"after sum-copy item %s archive %d: destination differs from the sum: %s (dest vs sum)", it, ai, msg)
 					return
 				}
